@@ -339,6 +339,48 @@ func propC02(c *Ctx) {
 			fast = ins
 		}
 	})
+	var cfParam ssa.Value = callFn.Params[1]
+	var outerFn *ssa.Function // set when the fast path lives in a helper: the routine that calls it
+	var outerCall *ssa.Call
+	if fast == nil {
+		// the whole fast path (test and frame reuse) may live in a helper that
+		// reports whether it took it: a callee that stores ip itself and never
+		// claims a frame
+		eachInstr(callFn, func(ins ssa.Instruction) {
+			cl, ok := ins.(*ssa.Call)
+			if !ok || fast != nil {
+				return
+			}
+			h := cl.Call.StaticCallee()
+			if h == nil || funcPkgPath(h) != modPath || len(h.Blocks) == 0 {
+				return
+			}
+			var hFast ssa.Instruction
+			claimsInH := false
+			eachInstr(h, func(x ssa.Instruction) {
+				if st, ok := x.(*ssa.Store); ok {
+					if fa, ok := vf.isVMFieldAddr(st.Addr); ok {
+						if fa.Field == fIP {
+							hFast = x
+						}
+						if fa.Field == fFrameIdx {
+							claimsInH = true
+						}
+					}
+				}
+			})
+			if hFast == nil || claimsInH {
+				return
+			}
+			for _, p := range h.Params {
+				if _, ok := p.Type().(*types.Pointer); ok && isNamed(p.Type(), modPath, "CompiledFunction") {
+					cfParam = p
+				}
+			}
+			outerFn, outerCall = callFn, cl
+			callFn, fast = h, hFast
+		})
+	}
 	if fast == nil {
 		c.Ok(rt, "no frame-reusing fast path", l.Pos(callFn.Pos()), "the call routine always claims a new frame")
 		return
@@ -369,11 +411,11 @@ func propC02(c *Ctx) {
 			}
 		}
 		bo, ok := g.If.Cond.(*ssa.BinOp)
-		if !ok || bo.Op != token.EQL || !g.Truth {
+		if !ok || !((bo.Op == token.EQL && g.Truth) || (bo.Op == token.NEQ && !g.Truth)) {
 			continue
 		}
 		for _, pr := range [][2]ssa.Value{{bo.X, bo.Y}, {bo.Y, bo.X}} {
-			if pr[0] == ssa.Value(callFn.Params[1]) {
+			if pr[0] == cfParam {
 				if u, ok := pr[1].(*ssa.UnOp); ok {
 					if _, ok := isFieldAddrOf(u.X, modPath, "frame", fFn); ok {
 						sameCallee = true
@@ -425,17 +467,23 @@ func propC02(c *Ctx) {
 		if !ok {
 			continue
 		}
-		// does this condition's true edge reach the fast path without passing another claim?
-		if !blockReaches(b.Succs[0], fast.Block()) {
+		// does the "equal" edge of this condition reach the fast path?
+		bo, ok := iff.Cond.(*ssa.BinOp)
+		if !ok || (bo.Op != token.EQL && bo.Op != token.NEQ) {
 			continue
 		}
-		if bo, ok := iff.Cond.(*ssa.BinOp); ok && bo.Op == token.EQL {
-			cmpOpcode(bo)
+		eqEdge := b.Succs[0]
+		if bo.Op == token.NEQ {
+			eqEdge = b.Succs[1]
 		}
+		if eqEdge != fast.Block() && !blockReaches(eqEdge, fast.Block()) {
+			continue
+		}
+		cmpOpcode(bo)
 	}
 	for _, h := range predHelpers {
 		eachInstr(h, func(ins ssa.Instruction) {
-			if bo, ok := ins.(*ssa.BinOp); ok && bo.Op == token.EQL {
+			if bo, ok := ins.(*ssa.BinOp); ok && (bo.Op == token.EQL || bo.Op == token.NEQ) {
 				cmpOpcode(bo)
 			}
 		})
@@ -495,6 +543,10 @@ func propC02(c *Ctx) {
 		return res
 	}
 	resets := resetLoopBefore(callFn, func(x *ssa.BasicBlock) bool { return x.Dominates(fast.Block()) })
+	if !resets && outerFn != nil {
+		// the loop runs in the call routine before it calls the helper
+		resets = resetLoopBefore(outerFn, func(x *ssa.BasicBlock) bool { return x.Dominates(outerCall.Block()) })
+	}
 	if !resets {
 		eachInstr(callFn, func(ins ssa.Instruction) {
 			cl, ok := ins.(*ssa.Call)
@@ -518,6 +570,8 @@ func propC02(c *Ctx) {
 		})
 	}
 	defer func() {
+		rtp := c.Rule("try-end-pop", "the instruction that ends a try statement pops the statement's handler on every path (handlers are addressed by static nesting depth; loop control with break / continue / return through finally depends on it)", 1)
+		ruleTryEndPop(c, rtp)
 		rfc := c.Rule("free-const", "the symbol of a captured variable inherits the Constant flag: a constant cannot be assigned from inside a function literal", 1)
 		ruleFreeConst(c, rfc)
 		rdf := c.Rule("define-fresh", "a := declaration of a local is always compiled to OpDefineLocal, never to an assignment opcode: one fresh variable per executed declaration", 1)
